@@ -1,5 +1,6 @@
 import KoordVerif.Model.C09
 import KoordVerif.Model.C09Plugin
+import KoordVerif.Model.C09Reconcile
 import KoordVerif.Generated.C09
 /-
 Tie lemmas: the priority bands / default values the model's class resolution uses are those of
@@ -55,5 +56,34 @@ theorem tie_strict_comparisons :
 
 /-- PrepareNodeForResource removes the resource exactly when the quantity is nil or the item is Reset (`prepareRes`). -/
 theorem tie_prepare_delete_cond : C09.prepareDeleteCond = "q==nil||Resets" := by decide
+
+/-! extension 3: the NodeResource threaded through the reconcile (Model/C09Reconcile.lean) -/
+
+/-- `reconcileNR` runs the prepare chain once for the need-sync check, once more before the status write and once more
+    before the meta patch: each of the three functions has exactly one prepareNodeResource call site, and
+    prepareNodeResource runs the chain once (`prepareCalls`). -/
+theorem tie_prepare_call_sites :
+    C09.prepareCallsIn_updateNodeResource = 1 ∧ C09.prepareCallsIn_updateNodeStatus = 1 ∧
+    C09.prepareCallsIn_updateNodeMeta = 1 ∧ C09.prepareChainRunsPerCall = 1 ∧
+    prepareCalls true true = C09.prepareCallsIn_updateNodeResource + C09.prepareCallsIn_updateNodeStatus + C09.prepareCallsIn_updateNodeMeta := by decide
+
+/-- the status amounts reach the API server only through updateNodeStatus (`Status().Update`); updateNodeMeta patches the
+    main resource, updateNodeResource itself writes nothing. -/
+theorem tie_client_writes :
+    C09.clientWritesIn_updateNodeResource = [] ∧ C09.clientWritesIn_updateNodeStatus = ["Status().Update"] ∧
+    C09.clientWritesIn_updateNodeMeta = ["Patch"] := by decide
+
+/-- PrepareNodeForResource assigns nothing through a pointer (`*q = …`) or into the NodeResource (`nr.… = …`): the only
+    write that can reach the stored quantity is a method call on `q` (the `q.Set(q.Value())` rounding of `prepareStored`);
+    in particular the amplified quantity is never stored. -/
+theorem tie_prepare_no_write_through : C09.prepareWritesThroughNR = [] := by decide
+
+/-- prepare order: cpunormalization (annotation), then midresource, then batchresource (`prepareAll`). -/
+theorem tie_prepare_order :
+    C09.nodePrepareOrder.filter (fun p => p == "cpunormalization" || p == "midresource" || p == "batchresource")
+      = ["cpunormalization", "midresource", "batchresource"] := by decide
+
+/-- IsCPUNormalizationRatioDifferent uses epsilon 0.01 (`ratioDiff`: more than 1 apart in percent units). -/
+theorem tie_ratio_diff_epsilon : C09.ratioDiffEpsilon = "0.01" := by decide
 
 end KoordVerif.C09
